@@ -144,8 +144,9 @@ def _rel(cc) -> list:
     sec = re.search(r"secondary='([^']+)'", c)
     uselist = 0 if "uselist=False" in c else 1
     ann_t = re.search(r"\[([A-Za-z_0-9]+)\]+$", cc.type)
+    rem = re.search(r"remote_side='([^']+)'", c)
     return [cc.name, tgt.group(1) if tgt else "?", uselist, fks.group(1) if fks else "", sec.group(1) if sec else "",
-            ann_t.group(1) if ann_t else "?", sorted(set(_mods_of(cc.type)))]
+            ann_t.group(1) if ann_t else "?", sorted(set(_mods_of(cc.type))), rem.group(1) if rem else ""]
 
 
 def inspect_ormatic(o) -> dict:
@@ -389,7 +390,7 @@ def enc_gen(g) -> list:
                      [E(t["pk"][0]), E(t["pk"][1]), Eset(t["pk"][2])],
                      [col(c) for c in t["builtin"]], [col(c) for c in t["custom"]],
                      [[E(k[0]), E(k[1]), k[2], Eset(k[3])] for k in t["fks"]],
-                     [[E(r[0]), E(r[1]), r[2], E(r[3]), E(r[4]), E(r[5]), Eset(r[6])] for r in t["rels"]],
+                     [[E(r[0]), E(r[1]), r[2], E(r[3]), E(r[4]), E(r[5]), Eset(r[6]), E(r[7])] for r in t["rels"]],
                      [[E(k), E(v)] for k, v in t["mapper"]]])
     return [0, Eset(g["imports"]), [[E(x) for x in a] for a in g["assoc"]], tabs]
 
